@@ -28,10 +28,17 @@ pub fn run_replay(name: &str, vals: Vec<Vec<u8>>) {
     }
 }
 
-/// C29 parser (BOUNDED stand-in: every UTF-8 string of exactly 20 or 21 bytes): from_str returns
-/// a date-time or an error and never panics; an accepted date-time is a valid civil date.
+/// C29 parser (BOUNDED stand-in: a fixed 16-byte ASCII prefix "2023-01-27T12:17" followed by every
+/// 4- or 5-byte tail that makes the whole a valid UTF-8 string of 20 or 21 bytes): from_str returns
+/// a date-time or an error and never panics; an accepted date-time has in-range fields.
 fn c29_from_str_total_body<S: Src>(s: &mut S) {
-    let bytes: [u8; 21] = s.bytes::<21>();
+    let tail: [u8; 5] = s.bytes::<5>();
+    let mut bytes = [0u8; 21];
+    let prefix = b"2023-01-27T12:17";
+    let mut i = 0;
+    while i < 16 { bytes[i] = prefix[i]; i += 1; }
+    let mut j = 0;
+    while j < 5 { bytes[16 + j] = tail[j]; j += 1; }
     let len = if s.bool() { 20 } else { 21 };
     if let Ok(text) = core::str::from_utf8(&bytes[..len]) {
         if let Ok(dt) = UtcDateTime::from_str(text) {
@@ -95,7 +102,7 @@ fn l0_i192_add_sub_neg_body<S: Src>(s: &mut S) {
         assert!(sub.is_some() == (a[2] >> 63 == 1));
     }
 }
-harness!(l0_i192_add_sub_neg, 5, l0_i192_add_sub_neg_body);
+harness!(l0_i192_add_sub_neg, 8, l0_i192_add_sub_neg_body);
 
 fn l0_i256_add_sub_neg_body<S: Src>(s: &mut S) {
     let a: [u64; 4] = any_limbs(s); let b: [u64; 4] = any_limbs(s);
@@ -111,7 +118,7 @@ fn l0_i256_add_sub_neg_body<S: Src>(s: &mut S) {
         assert!(sub.is_some() == (a[3] >> 63 == 1));
     }
 }
-harness!(l0_i256_add_sub_neg, 6, l0_i256_add_sub_neg_body);
+harness!(l0_i256_add_sub_neg, 8, l0_i256_add_sub_neg_body);
 
 /// L0 (complete): ordering, equality, sign tests and abs of I192 agree with the signed reference.
 fn l0_i192_cmp_abs_sign_body<S: Src>(s: &mut S) {
@@ -133,7 +140,7 @@ fn l0_i192_cmp_abs_sign_body<S: Src>(s: &mut S) {
     assert!(I192::MAX == i192([u64::MAX, u64::MAX, u64::MAX >> 1]));
     assert!(I192::ONE == i192([1, 0, 0]) && I192::TEN == i192([10, 0, 0]));
 }
-harness!(l0_i192_cmp_abs_sign, 5, l0_i192_cmp_abs_sign_body);
+harness!(l0_i192_cmp_abs_sign, 8, l0_i192_cmp_abs_sign_body);
 
 /// L0 (complete): I192 -> I256 widening is sign extension; I256 -> I192 narrowing is Ok exactly
 /// when the value is a sign extension of its low 192 bits, and then returns those bits.
@@ -145,7 +152,7 @@ fn l0_widen_narrow_body<S: Src>(s: &mut S) {
     let fits = (w[3] == 0 && w[2] >> 63 == 0) || (w[3] == u64::MAX && w[2] >> 63 == 1);
     match I192::try_from(i256(w)) { Ok(r) => { assert!(fits); assert!(r == i192([w[0], w[1], w[2]])); } Err(_) => assert!(!fits) }
 }
-harness!(l0_widen_narrow, 6, l0_widen_narrow_body);
+harness!(l0_widen_narrow, 8, l0_widen_narrow_body);
 
 /// L0 (complete, no input): the constants assumed by the Decimal units.
 fn l0_decimal_constants_body<S: Src>(_s: &mut S) {
@@ -155,7 +162,7 @@ fn l0_decimal_constants_body<S: Src>(_s: &mut S) {
     assert!(Decimal::ONE_HUNDRED.attos() == i192([7766279631452241920, 5, 0]));
     assert!(Decimal::TEN.attos() == i192([10_000_000_000_000_000_000, 0, 0]));
 }
-harness!(l0_decimal_constants, 3, l0_decimal_constants_body);
+harness!(l0_decimal_constants, 8, l0_decimal_constants_body);
 
 /// C24 pair (complete): Decimal checked_add / checked_sub on the real type are exact or None.
 fn c24_decimal_add_sub_body<S: Src>(s: &mut S) {
@@ -169,7 +176,7 @@ fn c24_decimal_add_sub_body<S: Src>(s: &mut S) {
         match x.checked_sub(y) { Some(r) => { assert!(!o); assert!(r.attos() == i192(d)); } None => assert!(o) }
     }
 }
-harness!(c24_decimal_add_sub, 5, c24_decimal_add_sub_body);
+harness!(c24_decimal_add_sub, 8, c24_decimal_add_sub_body);
 
 #[cfg(all(test, not(kani)))]
 mod finding_tests {
